@@ -485,7 +485,7 @@ func Hellinger(p, q []float64) float64 {
 		panic("stat: slice length mismatch")
 	}
 	bc := bhattacharyyaCoeff(p, q)
-	return math.Sqrt(1 - bc)
+	return math.Sqrt(math.Max(0, 1-bc))
 }
 
 // Histogram sums up the weighted number of data points in each bin.
